@@ -139,4 +139,24 @@ theorem getIdx_insertIdx_other (a : VList) (i j : Int) (y : Value)
         apply getIdx_neg_out
         rw [length_setN]; omega
 
+/-- `insert_value` hands back what `get_value` finds (both `none` outside the array). -/
+theorem insertIdxPrev_eq_getIdx (a : VList) (i : Int) : a.insertIdxPrev i = a.getIdx i := by
+  rcases int_cases i with ⟨n, rfl⟩ | ⟨k, hk, rfl⟩
+  · rw [getIdx_ofNat]
+    unfold VList.insertIdxPrev
+    by_cases h : a.length ≤ n
+    · simp [h, getN_none_of_le a n h]
+    · simp [h]
+  · unfold VList.insertIdxPrev
+    have hneg : ¬ (-(k : Int) ≥ 0) := by omega
+    simp only [hneg, if_false]
+    by_cases h : a.length < k
+    · rw [getIdx_neg_out a k h]
+      simp only [Int.neg_neg, Int.toNat_natCast, h, if_true]
+    · have hle : k ≤ a.length := by omega
+      rw [getIdx_neg_in a k hk hle]
+      simp only [Int.neg_neg, Int.toNat_natCast, h, if_false]
+      congr 1
+      omega
+
 end VList
